@@ -279,6 +279,12 @@ func registerSig(ex *Explorer) {
 		opub[0], opub[1] = 0x02, 0xBD
 		return tuple{boxed(&keyInfo{addr: other, pub: opub}), iface{}}
 	})
+	// range check of (v, r, s) against the curve order: the curve constants live in
+	// package-level variables of a package whose init is not run; the answer is an
+	// arbitrary boolean (both outcomes are explored)
+	ex.register("github.com/ethereum/go-ethereum/crypto.ValidateSignatureValues", func(fr *frame, args []value) value {
+		return fr.i.ctx.branch(fr.i.ctx.nondet("crypto.validSignatureValues", kBool))
+	})
 	pubKeyInfo := func(v value) *keyInfo {
 		pv, ok := v.(*value)
 		if !ok || pv == nil {
